@@ -234,9 +234,10 @@ def _zoom_cases(tier):
            dict(total=8, bases=[2, 4], targets=[8], K=1),
            dict(total=12, bases=[2, 3], targets=[4, 6], K=1, mixed=True, one_chrom=True)]   # two bases whose value column has different dtypes
     if tier != "quick":
-        out += [dict(total=8, bases=[2], targets=[4, 8], K=2), dict(total=12, bases=[2], targets=[6, 4, 2], K=1), dict(total=12, bases=[2, 3], targets=[6, 4], K=1),dict(total=12, bases=[2], targets=[4, 12, 6], K=2), dict(total=12, bases=[3, 2], targets=[12, 6, 4], K=2),
-                dict(total=16, bases=[2], targets=[4, 8, 16], K=2), dict(total=12, bases=[1], targets=[2, 3, 6], K=2),
-                dict(total=12, bases=[2, 4], targets=[8, 12], K=2)]
+        out += [dict(total=8, bases=[2], targets=[4, 8], K=2), dict(total=12, bases=[2], targets=[6, 4, 2], K=1), dict(total=12, bases=[2, 3], targets=[6, 4], K=1),
+                dict(total=12, bases=[2], targets=[4, 12, 6], K=1), dict(total=12, bases=[3, 2], targets=[12, 6, 4], K=1),
+                dict(total=16, bases=[2], targets=[4, 8, 16], K=1), dict(total=12, bases=[1], targets=[2, 3, 6], K=1),
+                dict(total=12, bases=[2, 4], targets=[8, 12], K=1)]
     return out
 
 
@@ -255,7 +256,7 @@ CHECKS = [
           doc="zoomify_cooler end to end on symbolic base collections (one or two bases), concrete resolution sets in any order: "
               "layout, recognition, every level == direct coarsening of a base, bases are faithful copies, refusal of non-derivable sets",
           bounds=dict(quick="K<=2 pixels per base, two chromosomes, 5 resolution sets", thorough="10 resolution sets, K=2"),
-          stubs=("E3 in-memory h5py model (File mode w truncates, Group.copy deep-copies)", "E4 pandas models"), timeout=3000, split_depth=16),
+          stubs=("E3 in-memory h5py model (File mode w truncates, Group.copy deep-copies)", "E4 pandas models"), timeout=3400, split_depth=22),
 ]
 
 MUTANTS = [
